@@ -380,6 +380,22 @@ def defineClass (w : World) (k : ClsId) (bases : List ClsId) (ns : List (String 
         -- `if hasattr(cls, "__invariants__"): add_invariant_checks(cls)`
         if (lookupInv w' k .all).isSome then addInvariantChecks w' k else w')
 
+/-- What a REJECTED class statement leaves behind.  `DBCMeta.__new__` decorates the namespace BEFORE the class object is
+created: the lists of a member function that already carried a checker are re-bound on that very checker, member by
+member in namespace order, until a member is refused (weakening, duplicate snapshot names) - or for all of them when only
+`type.__new__` fails afterwards (an inconsistent MRO).  Checkers newly created for functions without contracts live in the
+abandoned namespace only.  (Not used by `defineClass` and its theorems: the driver applies it after a rejection so that
+later operations on those functions see what the library sees.) -/
+def defineClassResidue (w : World) (bases : List ClsId) : List (String × Member) → World
+  | [] => w
+  | (key, m) :: rest =>
+    match decorateMember w bases key m with
+    | .error _ => w
+    | .ok w' =>
+      -- keep the new lists only for the functions that had a checker before
+      let w'' := { w' with checkers := w'.checkers.filter (fun p => (w.checker? p.1).isSome) }
+      defineClassResidue w'' bases rest
+
 /-! ### the `invariant` class decorator -/
 
 /-- `invariant.__call__`: create the three lists if `__invariants__` is not reachable, otherwise
